@@ -42,4 +42,21 @@ PLANS = {
         'design_ref': 'DESIGN.md 5.9',
         'level_note': 'trusted: /verif/ref/iso.py (BFS canonical form, cross-checked against brute-force bijection search); termination is judged by a deterministic tick budget, never by wall clock',
     },
+    'C15': {
+        'quick': {'rounds': 32, 'wall_cap_s': 150},
+        'thorough': {'rounds': 96, 'wall_cap_s': 1500},
+        'rule': ('cases = (object, word list): DFAs (1-5 states), NFAs (1-6 states, epsilon density up to .6, epsilon self-loops/cycles, '
+                 'dict and defaultdict transition maps), PDAs (1-4 states, all four transition shapes, closure limit knob in {20,60,200,1000}) '
+                 'and CNF grammars (1-5 variables); words = accepted words up to length 4-5 chosen with the reference (shortest + longest) plus '
+                 'rejected words for NFA/PDA; both leftmost and rightmost for grammars; one evaluation = one library call under the tick budget. '
+                 'distinct = distinct abstract object; non-trivial = some valid run of length >= 3 with an epsilon step (automata) / derivation of length >= 3.'),
+        'schedule_measure': 'distinct (abstract object, iteration order of its Q/Sigma/Gamma/F/V sets) pairs',
+        'assumptions': COMMON_ASSUMPTIONS + ['a call that does not return within 400k (PDA: 1.2M) ticks is counted as not returning in finite time',
+                                             'PDA narrowing: a witness is demanded only when the library\'s own pda_accepts_word says True under the current limit'],
+        'expected_probes': ['kind_dfa', 'kind_nfa', 'kind_pda', 'kind_cfg', 'epsilon_cycle_present', 'run_with_epsilon_steps', 'nontrivial'],
+        'technique': 'deterministic simulation: seeded search over set-iteration schedules (PYTHONHASHSEED x renaming x insertion order) under a simulated tick clock (bounded liveness); independent witness re-checker; minimised replay files',
+        'level_text': 'seeded sampling of automata/grammars x words x schedules; every returned run/derivation is re-checked step by step against the snapshot by an independent checker, acceptance comes from the reference, and every call must return within the tick budget; evidence, not proof',
+        'design_ref': 'DESIGN.md 5.6',
+        'level_note': 'trusted: witness checkers in props/c15.py and ref/cfg.py, reference acceptance (ref/fa.py, ref/pda.py); termination judged by deterministic tick budget',
+    },
 }
